@@ -9,10 +9,11 @@ import Driver.C18
 import Driver.C19
 import Driver.C20
 import Driver.Scope
+import Driver.Rel
 open Driver Selene
 
 def allHandlers : List (String × Handler) :=
-  Driver.C05.handlers ++ Driver.C06.handlers ++ Driver.C08.handlers ++ Driver.C15.handlers ++ Driver.C16.handlers ++ Driver.C17.handlers ++ Driver.C18.handlers ++ Driver.C19.handlers ++ Driver.C20.handlers ++ Driver.Scope.handlers
+  Driver.C05.handlers ++ Driver.C06.handlers ++ Driver.C08.handlers ++ Driver.C15.handlers ++ Driver.C16.handlers ++ Driver.C17.handlers ++ Driver.C18.handlers ++ Driver.C19.handlers ++ Driver.C20.handlers ++ Driver.Scope.handlers ++ Driver.Rel.handlers
 
 def handleLine (line : String) : String :=
   match line.splitOn "\t" with
